@@ -28,15 +28,25 @@ type params struct {
 	workers int
 	rehold  bool // deployments can become slow again after they finished
 	prereg  bool // WorkerCount operators and source runners register before the enumerated events
+	beats   bool // events are only: heartbeat of a node, the clock moving on by 2 s (less than half the deadline), checkpoint tick
 }
 
 const deadline = 5 * time.Second
 
 func Run(k *report.Check) {
-	k.Rule = "explicit-state search over the real jobs.Job with scripted operator / source-runner nodes, a harness clock and an in-memory store: events = register / deregister / heartbeat of operator i or source runner i (i<WorkerCount+1, so one standby of each kind), clock jump past the heartbeat deadline, checkpoint tick, acknowledgement of the pending checkpoint by a node, a node failing its next Deploy, Deploy calls becoming slow (they stay in flight, so that every other event can strike during deployment) and finishing; the job runs to quiescence after every event. Invariants on every call the job makes: Deploy / StartCheckpoint / AssignSplits only reach nodes that are registered and alive, every Deploy names exactly WorkerCount operators and runners, after a member is lost no further call reaches that assembly, a redeploy hands every operator the latest completed checkpoint. Bounded liveness from every reached state: register enough nodes, tick, acknowledge -> a new checkpoint with a larger id completes. non-trivial = distinct states reached after at least one loss of an assembly member"
+	k.Rule = "explicit-state search over the real jobs.Job with scripted operator / source-runner nodes, a harness clock and an in-memory store: events = register / deregister / heartbeat of operator i or source runner i (i<WorkerCount+1, so one standby of each kind), clock jump past the heartbeat deadline (a separate part: only heartbeats, clock steps of 2 s - less than half the deadline - and checkpoint ticks on a running assembly, to depth 8-14), checkpoint tick, acknowledgement of the pending checkpoint by a node, a node failing its next Deploy, Deploy calls becoming slow (they stay in flight, so that every other event can strike during deployment) and finishing; the job runs to quiescence after every event. Invariants on every call the job makes: Deploy / StartCheckpoint / AssignSplits only reach nodes that are registered and alive, every Deploy names exactly WorkerCount operators and runners, after a member is lost no further call reaches that assembly, a redeploy hands every operator the latest completed checkpoint. Bounded liveness from every reached state: register enough nodes, tick, acknowledge -> a new checkpoint with a larger id completes. non-trivial = distinct states reached after at least one loss of an assembly member"
 	k.Assumptions = []string{"nodes are scripted (real workers are the cluster parts' subject)", "job goroutines run to quiescence after every event with the default schedule"}
 	k.Budget(120, 1200)
-	k.Parts(k.Pick(2, 3))
+	k.Parts(k.Pick(4, 5))
+	// heartbeats in small time steps on a running assembly: a member that stops heartbeating must
+	// be noticed although the others keep the registry busy
+	for _, w := range []int{1, 2} {
+		d := k.Pick(10, 14)
+		if w == 2 {
+			d = k.Pick(8, 11)
+		}
+		k.ExploreSched(fmt.Sprintf("job/heartbeats,workers=%d,d=%d", w, d), mc.Config{Bound: 0}, params{depth: d, workers: w, prereg: true, beats: true}, body)
+	}
 	for _, w := range []int{1, 2}[:k.Pick(2, 2)] {
 		d := k.Pick(4, 7)
 		if w == 2 {
@@ -283,7 +293,19 @@ func body(c *mc.Ctx) {
 				return
 			}
 			nEv := 1 + 4*len(nodes) + 4
-			ev := c.Choose(nEv)
+			ev := 0
+			if p.beats {
+				switch h := c.Choose(1 + len(nodes) + 2); {
+				case h <= len(nodes):
+					ev = h
+				case h == len(nodes)+1:
+					ev = nEv // the clock moves on by 2 s
+				default:
+					ev = 4*len(nodes) + 2 // checkpoint tick
+				}
+			} else {
+				ev = c.Choose(nEv)
+			}
 			what := ""
 			switch {
 			case ev == 0:
@@ -330,6 +352,9 @@ func body(c *mc.Ctx) {
 			case ev == 4*len(nodes)+1:
 				what = "clock+6s"
 				w.clock.Advance(6 * time.Second)
+			case ev == nEv:
+				what = "clock+2s"
+				w.clock.Advance(2 * time.Second)
 			case ev == 4*len(nodes)+3:
 				// from now on Deploy calls stay in flight until released
 				if w.net.Hold || !p.rehold {
